@@ -224,6 +224,43 @@ Proof.
       [vm_compute; lia | exact nv_basis_eq | vm_compute; lia | vm_compute; lia | vm_compute; lia].
 Qed.
 
+(* order 0: the indicator functions of the knot intervals (the empty ones of
+   the repeated knots vanish identically); the derivative of a quadratic
+   B-spline from the linear ones *)
+Definition nv_basis0 : list (spline Qc) :=
+  match generate_bsplines 0 nv_ks with Ok l => l | _ => [] end.
+Definition nv_basis1 : list (spline Qc) :=
+  match generate_bsplines 1 nv_ks with Ok l => l | _ => [] end.
+
+Example NV_C01_order0_and_derivative_formula :
+  generate_bsplines 0 nv_ks = Ok nv_basis0 /\ length nv_basis0 = 8%nat /\
+  den (nth 2 nv_basis0 dflt_spline) 1 (qc 1 1) = f1 /\     (* [1/2, 3/2) contains 1 *)
+  den (nth 3 nv_basis0 dflt_spline) 1 (qc 1 1) = f0 /\     (* [3/2, 3/2) is empty *)
+  peval (pderiv (piece (nth 2 nv_basis dflt_spline) 2)) (qc 1 20)
+  = (fofnat 2 * (peval (piece (nth 2 nv_basis1 dflt_spline) 2) (qc 1 20) / (knot nv_ks 4 - knot nv_ks 2)
+                 - peval (piece (nth 3 nv_basis1 dflt_spline) 2) (qc 1 20) / (knot nv_ks 5 - knot nv_ks 3)))%F /\
+  peval (pderiv (piece (nth 2 nv_basis dflt_spline) 2)) (qc 1 20) = qc (-8) 5.
+Proof.
+  assert (E0 : generate_bsplines 0 nv_ks = Ok nv_basis0) by vmr.
+  assert (E1 : generate_bsplines 1 nv_ks = Ok nv_basis1) by vmr.
+  split; [exact E0|]. split; [vmr|].
+  assert (H : forall i, (i < 8)%nat ->
+            den (nth i nv_basis0 dflt_spline) 1 (qc 1 1)
+            = if fleb (knot nv_ks i) (qc 1 1) && fltb (qc 1 1) (knot nv_ks (i + 1)) then f1 else f0).
+  { intros i Hi.
+    apply (C01_order0 Qc QcOps Qc_laws nv_ks nv_basis0 i 1 (qc 1 1) nv_ks_nondecreasing
+             nv_ks_two_distinct nv_ks_len E0); [exact Hi | vm_compute; lia | vmr | vmr]. }
+  split; [rewrite (H 2%nat) by lia; vmr|]. split; [rewrite (H 3%nat) by lia; vmr|].
+  split; [|qc].
+  pose proof (C01_derivative_formula Qc QcOps Qc_laws nv_ks 1 nv_basis nv_basis1 2 2 (qc 1 20)
+                nv_ks_nondecreasing nv_ks_two_distinct nv_ks_len ltac:(vm_compute; lia)
+                nv_basis_eq E1 ltac:(vm_compute; lia) ltac:(vm_compute; lia)) as D.
+  cbn [Nat.add] in D.
+  replace (fltb (knot nv_ks 2) (knot nv_ks 4)) with true in D by vmr.
+  replace (fltb (knot nv_ks 3) (knot nv_ks 5)) with true in D by vmr.
+  exact D.
+Qed.
+
 (* the second constructor: the supplied grid must be the grid of the knots *)
 Example NV_C01_supplied_grid :
   (do gn <- gen_ctor2 nv_ks g6; generate gn 2) = Ok nv_basis /\
@@ -1327,9 +1364,6 @@ Qed.
 (* C13                                                                     *)
 (* ====================================================================== *)
 
-Lemma win_inv (a b : N) : sup_valid (win a b) = true -> SInv (win a b).
-Proof. intros H. apply SInv_of_valid; [vmr | exact H]. Qed.
-
 (* overlapping windows 1..3 and 2..5; touching windows; windows separated by a
    gap, whose hull contains the points 2 and 3 that belong to neither *)
 Example NV_C13_union_hull :
@@ -1747,7 +1781,8 @@ Proof.
   split; [vmr|]. split; [vmr|].
   assert (E : pot_matrices 2 (spl_shift sw (qc 5 3))
               = Ok (fst (fst nv_pot), snd (fst nv_pot'), snd nv_pot)) by vmr.
-  pose proof (ok_inj _ _ _ H1 E) as E'. injection E' as ->. vmr.
+  pose proof (f_equal (fun x => snd (fst x)) (ok_inj _ _ _ H1 E)) as E'.
+  cbn [fst snd] in E'. rewrite E'. vmr.
 Qed.
 
 (* an "eigen solver" that only respects the result sizes *)
@@ -1773,3 +1808,193 @@ Proof.
   - apply (C20_old_loop_reads_out_of_range Qc QcOps Qc_laws 2 nv_eigs sw sw_inv nv_eigs_sized);
       [nfact | vm_compute; lia].
 Qed.
+
+(* ====================================================================== *)
+(* C16, C04_R, C06_R, C07_R: statements over the real numbers               *)
+(* ====================================================================== *)
+(* No computation here.  The examples only show that the hypotheses of the
+   real-number theorems are consistent: the rounding hypotheses of C16 by the
+   binary64 instance proved in Proofs_Rounded.v (rnd64, u64, M64), the spline
+   hypotheses of the _R files by a concrete valid spline over R.  These
+   examples depend on the axioms of the standard library's real numbers (and
+   of Flocq / Coquelicot), as the theorems they instantiate do. *)
+From Coq Require Import Reals Lra.
+From BSpl Require Import Proofs_Rounded Proofs_Analysis Properties_C16 Properties_C04_R
+  Properties_C06_R Properties_C07_R.
+
+Example NV_C16_rounding_hypotheses :
+  (0 <= u64)%R /\
+  (forall x : R, exists d : R, (Rabs d <= u64)%R /\ rnd64 x = (x * (1 + d))%R) /\
+  (forall z : Z, (Z.abs z <= M64)%Z -> rnd64 (IZR z) = IZR z) /\
+  (* hence the bounds hold for binary64 *)
+  (forall (x : R) (c : list R) (xm v : R),
+     eval_interval (K := RndOps rnd64) x c xm = Ok v ->
+     (Rabs (v - peval (K := ExactOps) c (x - xm)) <= gamma u64 (3 * length c) * pabs c (x - xm))%R) /\
+  (forall (a b : list R) (h v : R),
+     (Z.of_nat (length a + length b) <= M64)%Z ->
+     bi_kernel (K := RndOps rnd64) a b h = Ok v ->
+     (Rabs (v - defint (K := ExactOps) (pmul (K := ExactOps) a b) h)
+      <= gamma u64 (3 * length a + 2 * length b + 2) * bi_abs a b h)%R).
+Proof.
+  split; [exact u64_pos|]. split; [exact C16_binary64_rounding_model|].
+  split; [exact C16_binary64_small_integers_exact|]. split.
+  - intros x c xm v H.
+    exact (C16_horner u64 u64_pos rnd64 C16_binary64_rounding_model x c xm v H).
+  - intros a b h v Hm H.
+    exact (C16_bilinear_kernel u64 u64_pos rnd64 C16_binary64_rounding_model M64
+             C16_binary64_small_integers_exact a b h v Hm H).
+Qed.
+
+(* the exact reference of C16 is the model at Qc: the instances of C01 / C06 above *)
+Example NV_C16_exact_reference :
+  den (nth 3 nv_basis dflt_spline) 2 (qc 9 5) = B nv_ks 2 3 (qc 9 5) /\
+  bilinear (elab e61) (elab e62) sq sw
+  = Ok (fsum (fun k => defint (pmul (dsem e61 (sgridp sq) k (piece sq k))
+                                     (dsem e62 (sgridp sq) k (piece sw k)))
+                              (halfwidth (sgridp sq) k)) (interval_list (win 2 6))).
+Proof.
+  split.
+  - apply (C16_exact_reference_generator nv_ks 2 nv_basis 3 2 (qc 9 5) nv_ks_nondecreasing
+             nv_ks_two_distinct nv_ks_len);
+      [vm_compute; lia | exact nv_basis_eq | vm_compute; lia | vm_compute; lia | vmr | vmr].
+  - exact (C16_exact_reference_forms e61 e62 sq sw (win 2 6) sq_inv sw_inv eq_refl
+             e61_factors e62_factors e61_scalars e62_scalars ltac:(vmr)).
+Qed.
+
+(* a valid spline over R: order 1 on the grid 0, 1, 3 *)
+Definition gR : list R := [0; 1; 3]%R.
+Definition sR : spline R := mkSpl (mkSup gR 0 3) 1 [[1; 2]; [-1; 1 / 2]]%R.
+
+Lemma gR_inv : GInv (K := ExactOps) gR.
+Proof.
+  split; [cbv; discriminate|]. split; [reflexivity|].
+  intros i a b Ha Hb. destruct i as [|[|i]]; cbn in Ha, Hb.
+  - injection Ha as <-. injection Hb as <-. apply Rltb_lt. lra.
+  - injection Ha as <-. injection Hb as <-. apply Rltb_lt. lra.
+  - destruct i; discriminate Hb.
+Qed.
+
+Lemma sR_inv : SplInv (K := ExactOps) sR.
+Proof.
+  split; [split; [reflexivity | right; split; [reflexivity | cbv; discriminate]]|].
+  split; [exact gR_inv|]. split; [reflexivity | repeat constructor].
+Qed.
+
+Example NV_C04_R_derivative_operator_is_derivative :
+  exists r, apply (K := ExactOps) (ODer 1) sR = Ok r /\
+    forall x, Derive.is_derive_n (fun x0 => den (K := ExactOps) sR 1 x0) 1 x (den (K := ExactOps) r 1 x).
+Proof.
+  destruct (C04_apply R ExactOps ExactLaws (EDer 1) sR sR_inv I I) as (r & Hr & _).
+  exists r. split; [exact Hr|]. intros x.
+  apply (C04_R_derivative_operator_is_derivative sR r 1 sR_inv Hr 1%N x).
+  split; [cbv; discriminate | reflexivity].
+Qed.
+
+Example NV_C06_R_scalar_product_is_integral :
+  exists v, bilinear (K := ExactOps) OId OId sR sR = Ok v /\
+    @RInt.is_RInt Hierarchy.R_NormedModule (fun x : R => (sfun sR x * sfun sR x)%R) 0%R 3%R v.
+Proof.
+  assert (Hu : calc_inter (K := ExactOps) (ssup sR) (ssup sR) = Ok (mkSup gR 0 3)).
+  { apply (C13_inter_idem (L := ExactLaws) (ssup sR)). exact (proj1 sR_inv). }
+  destruct (C06_R_scalar_product_is_integral sR sR (mkSup gR 0 3) sR_inv sR_inv eq_refl Hu)
+    as (v & H1 & H2).
+  exists v. split; [exact H1 | exact H2].
+Qed.
+
+Example NV_C07_R_linear_form_is_integral :
+  exists v, @Forms.linear R ExactOps OId sR = Ok v /\ @RInt.is_RInt Hierarchy.R_NormedModule (sfun sR) 0%R 3%R v.
+Proof.
+  destruct (C07_R_linear_form_is_integral sR sR_inv) as (v & H1 & H2).
+  exists v. split; [exact H1 | exact H2].
+Qed.
+
+(* ====================================================================== *)
+(* every example above is closed under the global context, except the      *)
+(* last section (real numbers)                                            *)
+(* ====================================================================== *)
+Print Assumptions NV_C01_constructor.
+Print Assumptions NV_C01_count.
+Print Assumptions NV_C01_too_few_knots.
+Print Assumptions NV_C01_is_cox_de_boor.
+Print Assumptions NV_C01_eval_interior.
+Print Assumptions NV_C01_partition_of_unity.
+Print Assumptions NV_C01_smooth_across_knots.
+Print Assumptions NV_C01_order0_and_derivative_formula.
+Print Assumptions NV_C01_supplied_grid.
+Print Assumptions NV_C02_inside.
+Print Assumptions NV_C02_outside.
+Print Assumptions NV_C02_front_back.
+Print Assumptions NV_C02_lower_bound_contract.
+Print Assumptions NV_C03_add.
+Print Assumptions NV_C03_add_gap.
+Print Assumptions NV_C03_sub.
+Print Assumptions NV_C03_mul.
+Print Assumptions NV_C03_scale_div_neg.
+Print Assumptions NV_C03_assign_up.
+Print Assumptions NV_C03_iadd.
+Print Assumptions NV_C03_lin_comb.
+Print Assumptions NV_C03_update_sequences.
+Print Assumptions NV_C04_apply.
+Print Assumptions NV_C04_derivative_transform.
+Print Assumptions NV_C04_position_transform.
+Print Assumptions NV_C05_expr_sound.
+Print Assumptions NV_C05_apply.
+Print Assumptions NV_C05_commutator_and_scalars.
+Print Assumptions NV_C05_factor_on_other_grid.
+Print Assumptions NV_C06_exact.
+Print Assumptions NV_C06_swap.
+Print Assumptions NV_C06_add_l.
+Print Assumptions NV_C06_scale_l.
+Print Assumptions NV_C06_scalar_product.
+Print Assumptions NV_C06_kernel.
+Print Assumptions NV_C07_exact.
+Print Assumptions NV_C07_add_scale.
+Print Assumptions NV_C07_bilinear_is_linear_of_product.
+Print Assumptions NV_C07_kernel.
+Print Assumptions NV_C08_functions.
+Print Assumptions NV_C08_steps.
+Print Assumptions NV_C09_no_ub_history.
+Print Assumptions NV_C09_no_ub.
+Print Assumptions NV_C09_index.
+Print Assumptions NV_C09_transform_total.
+Print Assumptions NV_C10_history.
+Print Assumptions NV_C10_moved_from_spline.
+Print Assumptions NV_C14_frame_history.
+Print Assumptions NV_C14_frame.
+Print Assumptions NV_C14_writes_are_targets.
+Print Assumptions NV_C11_grid.
+Print Assumptions NV_C11_support.
+Print Assumptions NV_C11_spline.
+Print Assumptions NV_C11_generator.
+Print Assumptions NV_C11_lincomb.
+Print Assumptions NV_C11_interp.
+Print Assumptions NV_C12_system_ok.
+Print Assumptions NV_C12_spec.
+Print Assumptions NV_C12_interpolate.
+Print Assumptions NV_C12_default_boundaries.
+Print Assumptions NV_C12_refusals.
+Print Assumptions NV_C13_union_hull.
+Print Assumptions NV_C13_inter_mem.
+Print Assumptions NV_C13_assoc.
+Print Assumptions NV_C13_conversions.
+Print Assumptions NV_C13_view.
+Print Assumptions NV_C13_generated_definitions_agree.
+Print Assumptions NV_C15_is_zero.
+Print Assumptions NV_C15_overlap.
+Print Assumptions NV_C15_eq.
+Print Assumptions NV_C17_sum_over_common_intervals.
+Print Assumptions NV_C17_weight.
+Print Assumptions NV_C18_interleave_deterministic.
+Print Assumptions NV_C18_schedule_independent.
+Print Assumptions NV_C18_discipline_needed.
+Print Assumptions NV_C19_laws_satisfiable.
+Print Assumptions NV_C19_exact_at_Qc.
+Print Assumptions NV_C20_diffusion.
+Print Assumptions NV_C20_diffusion_reexport.
+Print Assumptions NV_C20_potential_shift.
+Print Assumptions NV_C20_potential_count.
+Print Assumptions NV_C16_rounding_hypotheses.
+Print Assumptions NV_C16_exact_reference.
+Print Assumptions NV_C04_R_derivative_operator_is_derivative.
+Print Assumptions NV_C06_R_scalar_product_is_integral.
+Print Assumptions NV_C07_R_linear_form_is_integral.
